@@ -57,6 +57,19 @@ CHECKS = {
         "differential testing against a reference decoder: exhaustive short streams x all chunkings, Hypothesis structured streams, atheris coverage-guided fuzzing",
         "DESIGN.md 4/C02",
     ),
+    "C05": (
+        "fault_enumeration",
+        "Real AshProtocol on a virtual-time loop against a scripted peer: all 6^5 per-attempt reaction sequences "
+        "{covering ACK, stale ACK, NAK, silence, ERROR, RSTACK} for a send with another queued behind it (thorough: at 7 "
+        "timing multipliers incl. exactly at and 1e-6 around the timeout), plus Hypothesis plans of 1-24 sends with failures, "
+        "recoveries by RSTACK and timeout-drift runs. Invariants over the ordered wire/upcall/outcome log: attempts <= 5, same "
+        "number and payload, reTx flag, repeat at a NAK instant or 0.4..3.2 s after the previous attempt, success only after a "
+        "covering ACK (and always on one that arrives while outstanding), one notification per failure with the reason, queued "
+        "sends fail, silence until RSTACK, one outstanding frame, consecutive numbers restarting at 0 after RSTACK.",
+        "Caller cancellation is C01's; the peer never sends DATA here. Timeout value is read from the implementation only to place events.",
+        "fault enumeration (exhaustive per-attempt reactions) + Hypothesis plans on a virtual clock, trace invariants",
+        "DESIGN.md 4/C05",
+    ),
 }
 
 NOT_YET = "check not built yet in this session (planned, see DESIGN.md section 4)"
